@@ -67,6 +67,11 @@ pub enum Source {
     MprotectFailure,
     /// every attempt to make the refused target's page writable fails (not only the first)
     MprotectFailurePersistent,
+    /// the refused target's entry runs over a page boundary and only the SECOND page refuses to
+    /// become writable (two mappings with different backing): nothing may have been written to
+    /// the first page when the refusal is raised
+    #[serde(alias = "MprotectFailureSecondPage")]
+    MprotectFailureSecondPage,
 }
 
 /// a refused target on a page of its own (so that a persistent protection failure cannot affect
@@ -85,6 +90,25 @@ fn lone_target() -> Option<usize> {
     });
     if ok { Some(LONE_TARGET) } else { None }
 }
+
+/// a refused target whose first two bytes are the last two of a page
+pub const STRADDLE_BASE: usize = 0x0000_2345_6799_0000;
+pub const STRADDLE_TARGET: usize = STRADDLE_BASE + 0x1000 - 2;
+static STRADDLE_ARENA: std::sync::OnceLock<bool> = std::sync::OnceLock::new();
+fn straddle_target() -> Option<usize> {
+    let ok = *STRADDLE_ARENA.get_or_init(|| match crate::arena::Arena::map(STRADDLE_BASE, 2 * crate::arena::PAGE) {
+        Some(a) => {
+            a.put_ret_id(STRADDLE_TARGET, 0x20E);
+            a.seal();
+            std::mem::forget(a);
+            true
+        }
+        None => false,
+    });
+    if ok { Some(STRADDLE_TARGET) } else { None }
+}
+/// the function an installation of the current lifetime's panic source is refused for
+static REFUSED_ADDR: AtomicUsize = AtomicUsize::new(0);
 
 #[derive(Serialize, Deserialize, Clone, Debug, Hash, PartialEq, Eq)]
 pub enum PStep {
@@ -136,7 +160,10 @@ pub static REFUSED_SNAPSHOT_AT_PANIC: std::sync::Mutex<Vec<u8>> = std::sync::Mut
 
 /// called from the panic hook: what do the refused target's bytes look like right now?
 pub fn on_panic_snapshot() {
-    let a = p_r as fn(u64) -> u64 as usize;
+    let a = match REFUSED_ADDR.load(SeqCst) {
+        0 => p_r as fn(u64) -> u64 as usize,
+        a => a,
+    };
     if let Ok(mut g) = REFUSED_SNAPSHOT_AT_PANIC.try_lock() {
         *g = crate::mem::read_direct(a, 16);
     }
@@ -202,6 +229,15 @@ fn fire(inj: &mut InjectorPP, src: Source, st: &mut Interp, extra_unsat: &mut u6
             }
             None => panic!("lone arena unavailable (harness)"),
         },
+        Source::MprotectFailureSecondPage => match straddle_target() {
+            Some(t) => {
+                ip::MPROTECT_FAIL_PAGE.store((STRADDLE_BASE + 0x1000) as u64, SeqCst);
+                unsafe {
+                    inj.when_called(FuncPtr::new(t as *const (), "fn(u64) -> u64")).will_execute_raw(injectorpp::func!(fn (p_fake_plain)(u64) -> u64));
+                }
+            }
+            None => panic!("straddle arena unavailable (harness)"),
+        },
     }
 }
 
@@ -215,6 +251,14 @@ pub fn execute(c: &PanicCase) -> PanicObs {
         ip::log_clear();
         crate::worker::panic_log_take();
         *REFUSED_SNAPSHOT_AT_PANIC.lock().unwrap() = vec![];
+        let refused_addr = match l.panic_at {
+            Some((_, Source::MprotectFailurePersistent, _)) => lone_target(),
+            Some((_, Source::MprotectFailureSecondPage, _)) => straddle_target(),
+            _ => None,
+        }
+        .unwrap_or(p_r as fn(u64) -> u64 as usize);
+        REFUSED_ADDR.store(refused_addr, SeqCst);
+        let pristine_refused = crate::mem::read_direct(refused_addr, 16);
         let before = crate::worker::PANIC_COUNT.load(SeqCst);
         let mut st = Interp { faked: [None, None, None], times_used: [false; 3], installs: 0 };
         let mut caught_panics = 0u64;
@@ -339,7 +383,7 @@ pub fn execute(c: &PanicCase) -> PanicObs {
         lo.pending_unsatisfied = unsat + if over_pending { 1 } else { 0 };
         // an injected platform fault only matters if the library made the call that was to fail
         // (an implementation that needs no trampoline for this pair never asks for memory)
-        let env_fault = matches!(l.panic_at, Some((_, Source::AllocationFailure | Source::MprotectFailure | Source::MprotectFailurePersistent, _)));
+        let env_fault = matches!(l.panic_at, Some((_, Source::AllocationFailure | Source::MprotectFailure | Source::MprotectFailurePersistent | Source::MprotectFailureSecondPage, _)));
         lo.fault_not_reached = env_fault && source_fired && ip::MMAP_FAILS.load(SeqCst) == 0 && ip::MPROTECT_FAILS.load(SeqCst) == 0;
         let uncaught_source = matches!(l.panic_at, Some((_, _, false))) && !lo.fault_not_reached;
         if lo.fault_not_reached {
@@ -362,8 +406,11 @@ pub fn execute(c: &PanicCase) -> PanicObs {
         }
         let snap = REFUSED_SNAPSHOT_AT_PANIC.lock().unwrap().clone();
         let refused_src = matches!(l.panic_at, Some((_, s, _)) if !matches!(s, Source::User | Source::FakeRejectsArguments | Source::OverCalled));
-        if refused_src && !snap.is_empty() && snap != pristine[4] {
+        if refused_src && !snap.is_empty() && snap != pristine_refused {
             lo.refused_target_written = true;
+        }
+        if crate::mem::read_direct(refused_addr, 16) != pristine_refused {
+            lo.not_pristine.push(format!("the refused target at {refused_addr:#x}"));
         }
         // mappings still outstanding after the lifetime (informational: a failed mprotect
         // legitimately strands the trampoline that was allocated before it; C12 covers leaks)
@@ -442,6 +489,7 @@ pub fn strategy() -> impl Strategy<Value = PanicCase> {
         1 => Just(Source::AllocationFailure),
         1 => Just(Source::MprotectFailure),
         2 => Just(Source::MprotectFailurePersistent),
+        2 => Just(Source::MprotectFailureSecondPage),
     ];
     let life = (prop::collection::vec(step, 0..=7), prop::option::weighted(0.85, (0u8..=7, src, prop::bool::weighted(0.35)))).prop_map(|(steps, pa)| {
         let n = steps.len() as u8;
